@@ -1363,11 +1363,14 @@ def run_preempt(program):
     def world():
         w = {}
         mod = 'vp_preempt'
-        for nm, bases in (('IR0', ()), ('IR1', ('IR0',)), ('IX', ()), ('IP', ()), ('IPc', ('IP',)), ('IPb', ('IP',))):
+        for nm, bases in (('IR0', ()), ('IR1', ('IR0',)), ('IX', ()), ('IP', ()), ('IPc', ('IP',)), ('IPb', ('IP',)), ('IPd', ('IP',))):
             w[nm] = InterfaceClass(nm, tuple(w[b] for b in bases) or (Interface,), {}, __module__=mod)
         reg = (A.AdapterRegistry if flav == 0 else A.VerifyingAdapterRegistry)()
-        reg.register([w['IX']], w['IPc'], '', 'Cx')
+        # registration order chosen so that the interfaces extending IP are walked as [IPc, IPb, IPd]: the answering one sits between
+        # two others, whichever direction a collector walks
+        reg.register([w['IX']], w['IPd'], '', 'Dx')
         reg.register([w['IR0']], w['IPb'], '', 'B')
+        reg.register([w['IX']], w['IPc'], '', 'Cx')
         reg.register([w['IR0'], w['IR0']], w['IP'], '', 'two')
         reg.subscribe([w['IR0']], w['IP'], 's1')
         reg.subscribe([w['IR1']], w['IPb'], 's2')
